@@ -12,6 +12,8 @@ pub(crate) mod mut_bump_allocator_typed_scope;
 
 pub use bump_allocator::BumpAllocator;
 pub use bump_allocator_core::BumpAllocatorCore;
+#[cfg(kani)]
+pub(crate) use bump_allocator_core::Sealed;
 pub use bump_allocator_core_scope::BumpAllocatorCoreScope;
 pub use bump_allocator_scope::BumpAllocatorScope;
 pub use bump_allocator_typed::BumpAllocatorTyped;
